@@ -65,11 +65,17 @@ func NewOT(kind int, r *simrand.DRBG) ot.OT {
 type otSpy struct {
 	ot.OT
 	Wires []ot.Wire
+	// AfterSend, if set, runs when a Send has returned (the session's OT phase is over)
+	AfterSend func()
 }
 
 func (s *otSpy) Send(wires []ot.Wire) error {
 	s.Wires = append(s.Wires, wires...)
-	return s.OT.Send(wires)
+	err := s.OT.Send(wires)
+	if s.AfterSend != nil {
+		s.AfterSend()
+	}
+	return err
 }
 
 // Session describes one protocol session.
@@ -116,6 +122,10 @@ type Session struct {
 	Par             *Session
 	ParDelay        time.Duration
 	RandStallOneIn  int // with Par: one read in so many of the shared randomness source stalls
+	// ParAfterOT: the second client does not arrive after a delay but at a moment of the first
+	// session - when the first garbler's oblivious transfer has just finished and it waits for the
+	// evaluator's answer
+	ParAfterOT bool
 	// UsePipe: the session runs over the library's in-memory transport (p2p.Pipe) instead of the
 	// simulated socket pair (plain sessions only: no transcripts, no faults)
 	UsePipe bool
@@ -215,6 +225,18 @@ func Run(t *rt.Tape, s Session) *Out {
 			second.Abort()
 		}
 	}
+	var otDone bool
+	var otWait []*rt.Task
+	release := func() {
+		otDone = true
+		for _, w := range otWait {
+			rt.Ready(w)
+		}
+		otWait = nil
+	}
+	if s.ParAfterOT {
+		spy.AfterSend = release
+	}
 	var ea3, eb3 *simnet.Endpoint
 	var spyP *otSpy
 	var otEP ot.OT
@@ -290,6 +312,7 @@ func Run(t *rt.Tape, s Session) *Out {
 			}
 			o.GOut, o.GErr = circuit.Garbler(cfg, conn, spy, s.Circ, s.X, s.VerboseG)
 			o.GDone = true
+			release() // (a first session without an OT phase must not keep the second client waiting)
 			o.OTWires, spy.Wires = spy.Wires, nil
 			if s.Next != nil || s.Par != nil {
 				o.GOut = keepAndScribble(o.GOut, s.X)
@@ -326,6 +349,12 @@ func Run(t *rt.Tape, s Session) *Out {
 			n := o.Par
 			rt.GoParty("G", "garbler-par", func() {
 				rt.Sleep(s.ParDelay)
+				if s.ParAfterOT {
+					for !otDone {
+						otWait = append(otWait, rt.Current())
+						rt.Park("second client waits for the first session's OT to finish")
+					}
+				}
 				conn := p2p.NewConn(ea3)
 				n.GOut, n.GErr = circuit.Garbler(cfg, conn, spyP, s.Par.Circ, s.Par.X, s.VerboseG)
 				n.GDone = true
@@ -338,6 +367,12 @@ func Run(t *rt.Tape, s Session) *Out {
 			})
 			rt.GoParty("E", "evaluator-par", func() {
 				rt.Sleep(s.ParDelay)
+				if s.ParAfterOT {
+					for !otDone {
+						otWait = append(otWait, rt.Current())
+						rt.Park("second client waits for the first session's OT to finish")
+					}
+				}
 				conn := p2p.NewConn(eb3)
 				n.EOut, n.EErr = circuit.Evaluator(conn, otEP, s.Par.Circ, s.Par.Y, s.VerboseE)
 				n.EDone = true
@@ -551,7 +586,13 @@ func (w *C02) Run(t *rt.Tape, trace bool) *core.Result {
 		want3 = gen.Eval(circ3, in3)
 		sess.Par = &Session{Circ: circ3, X: in3[0], Y: in3[1]}
 		sess.ParDelay = []time.Duration{0, 0, time.Millisecond, 20 * time.Millisecond}[t.Choose(rt.SGen, 4)]
+		if lat := max(pipe.AB.LatMax, pipe.BA.LatMax); lat > 0 && t.Choose(rt.SGen, 2) == 0 {
+			// on a link with latency: the second client arrives some half round trips into the first
+			// session (while it transfers tables, runs its OT, waits for the result)
+			sess.ParDelay = time.Duration(t.Choose(rt.SGen, 16)) * lat / 2
+		}
 		sess.RandStallOneIn = []int{0, 4, 16, 64}[t.Choose(rt.SGen, 4)]
+		sess.ParAfterOT = t.Choose(rt.SGen, 3) == 0
 		second = fmt.Sprintf("session served at the same time (same circuit value: %v, starts %v later): %s x=%s y=%s", circ3 == circ, sess.ParDelay, gen.Describe(circ3), in3[0].Text(16), in3[1].Text(16))
 		res.Reach["concurrent-sessions.same-circuit-value="+fmt.Sprint(circ3 == circ)]++
 	}
